@@ -476,7 +476,7 @@ func main() {
 		child(o.Seed, *cn, *cfrom)
 		return
 	}
-	res := vh.NewResult("real isaac.SuffrageStateBuilder.Build on chains of real isaacblock.SuffrageProof (suffrage heights up to 13, local state none or 0..9, limits 1..7, random arrival order by delays), in a child process; honest remotes and single malformations (missing, error, duplicate, below local, above last, foreign chain, bad tree proof, wrong block height, suffrage height 0 at a non-genesis block, foreign/invalid/older last proof, swapped); non-trivial = more than one batch or a malformation")
+	res := vh.NewResult("real isaac.SuffrageStateBuilder.Build on chains of real isaacblock.SuffrageProof (suffrage heights up to 13, local state none or 0..9, limits 1..7, random arrival order by delays), in a child process; honest remotes and single malformations (missing, error, duplicate, below local, above last, foreign chain, bad tree proof, wrong block height, suffrage height 0 at a non-genesis block, nil previous state hash, foreign/invalid/older last proof, swapped); non-trivial = more than one batch or a malformation")
 	cases := &vh.Cases{Import: "From MV Require Import C18.Model.", Type: "case", CheckFn: "check", Shard: 300}
 	n := o.Pick(900, 20000)
 
